@@ -24,7 +24,19 @@ def extra_externals(L):
         import re
         t = L.cstr(A(a, 0)); mt = re.match(rb'\s*[-+]?\d+', t)
         return (int(mt.group(0)) if mt else 0) & M32
-    return {'$calloc': calloc, '$memmove': memmove, '$atoi': atoi, '$strncmp': lambda mm, a: ((lambda x, y: (x > y) - (x < y))(L.cstr(A(a, 0))[:A(a, 2)], L.cstr(A(a, 1))[:A(a, 2)])) & M32,
+    def qsort(mm, a):
+        base, n, size, cmp = A(a, 0), A(a, 1), A(a, 2), A(a, 3)
+        import functools
+        items = [bytes(m.mem[base + i * size:base + (i + 1) * size]) for i in range(n)]
+        pa = L.malloc(size); pb = L.malloc(size)
+        fname = m.addrfn[cmp]
+        def c(x, y):
+            m.mem[pa:pa + size] = x; m.mem[pb:pb + size] = y
+            return sx(m.call(fname, [('l', pa), ('l', pb)]) & M32, 32)
+        items.sort(key=functools.cmp_to_key(c))
+        for i, it_ in enumerate(items): m.mem[base + i * size:base + (i + 1) * size] = it_
+        return None
+    return {'$qsort': qsort, '$calloc': calloc, '$memmove': memmove, '$atoi': atoi, '$strncmp': lambda mm, a: ((lambda x, y: (x > y) - (x < y))(L.cstr(A(a, 0))[:A(a, 2)], L.cstr(A(a, 1))[:A(a, 2)])) & M32,
             '$getenv': lambda mm, a: 0, '$clock': lambda mm, a: 0}
 
 
@@ -33,7 +45,7 @@ def run(iltext, argv, max_steps=2_000_000_000):
     saved = dict(qbei.EXTERNALS)
     try:
         qbei.EXTERNALS.clear()
-        for n in ['$malloc', '$free', '$realloc', '$calloc', '$memmove', '$atoi', '$strncmp', '$getenv', '$clock', '$memcpy', '$memset', '$memcmp', '$strlen', '$strcmp', '$strchr', '$strrchr', '$strstr', '$strpbrk', '$strtoull', '$strtod', '$tolower',
+        for n in ['$qsort', '$malloc', '$free', '$realloc', '$calloc', '$memmove', '$atoi', '$strncmp', '$getenv', '$clock', '$memcpy', '$memset', '$memcmp', '$strlen', '$strcmp', '$strchr', '$strrchr', '$strstr', '$strpbrk', '$strtoull', '$strtod', '$tolower',
                   '$__ctype_b_loc', '$__errno_location', '$__assert_fail', '$abort', '$exit', '$getc', '$ungetc', '$fopen', '$freopen', '$fclose', '$ferror', '$fflush', '$printf', '$fprintf', '$vfprintf', '$snprintf', '$perror',
                   '$fputs', '$puts', '$fputc', '$putc', '$putchar']:
             qbei.EXTERNALS[n] = None
